@@ -92,16 +92,16 @@ type weighted struct {
 }
 
 func kindsOf(mode string) []weighted {
+	// rapid's first, small draws pick the head of the list: the most useful kinds come first
 	base := []weighted{
-		{opAddSchema, 8}, {opPatch, 10}, {opSetActive, 7}, {opCreateIndex, 12}, {opDropIndex, 5}, {opAddView, 2},
-		{opCreate, 18}, {opUpdate, 8}, {opDelete, 4}, {opRestart, 14},
+		{opCreate, 18}, {opRestart, 14}, {opCreateIndex, 12}, {opPatch, 10}, {opUpdate, 9}, {opSetActive, 7}, {opAddSchema, 6},
+		{opDropIndex, 5}, {opDelete, 5}, {opAddView, 2},
 	}
 	switch mode {
 	case "acp":
-		base = append(base, weighted{opAddRel, 10}, weighted{opDelRel, 4})
+		base = append([]weighted{{opAddRel, 14}, {opDelRel, 5}}, base...)
 	case "p2p":
-		base = append(base, weighted{opSetRep, 10}, weighted{opDelRep, 5}, weighted{opAddP2PCol, 6}, weighted{opRemP2PCol, 3},
-			weighted{opAddP2PDoc, 6}, weighted{opRemP2PDoc, 3})
+		base = append([]weighted{{opSetRep, 14}, {opAddP2PDoc, 8}, {opAddP2PCol, 8}, {opDelRep, 7}, {opRemP2PCol, 4}, {opRemP2PDoc, 4}}, base...)
 	}
 	return base
 }
@@ -120,7 +120,7 @@ func drawOp(t *rapid.T, mode string) Op {
 	case opAddSchema:
 		o.N = rapid.IntRange(0, numTemplates-1).Draw(t, "template")
 		o.F = rapid.IntRange(1, 255).Draw(t, "fields")
-		o.X = rapid.IntRange(0, 7).Draw(t, "sdlIndexes")
+		o.X = rapid.SampledFrom([]int{0, 0, 1, 2, 0, 4, 3, 7}).Draw(t, "sdlIndexes")
 		o.B = rapid.IntRange(0, 3).Draw(t, "branchable") == 0
 		o.B2 = rapid.Bool().Draw(t, "policy")
 	case opPatch:
@@ -162,7 +162,8 @@ func drawOp(t *rapid.T, mode string) Op {
 		o.C = small.Draw(t, "col")
 		o.D = small.Draw(t, "doc")
 		o.N = rapid.IntRange(0, 2).Draw(t, "relation")
-		o.X = rapid.IntRange(0, 2).Draw(t, "target")
+		o.X = rapid.IntRange(0, 1).Draw(t, "target")
+		o.B = rapid.IntRange(0, 4).Draw(t, "byOther") == 0
 	case opSetRep, opDelRep:
 		o.X = rapid.IntRange(0, 1).Draw(t, "target")
 		o.V = rapid.IntRange(0, 7).Draw(t, "colmask") // 0 = all collections
@@ -185,7 +186,7 @@ func drawCase(t *rapid.T, mode string) Case {
 	first := drawOp(t, c.Mode)
 	for first.K != opAddSchema {
 		first = Op{K: opAddSchema, N: rapid.IntRange(0, numTemplates-1).Draw(t, "template0"), F: rapid.IntRange(1, 255).Draw(t, "fields0"),
-			X: rapid.IntRange(0, 7).Draw(t, "sdlIndexes0"), B2: true}
+			X: rapid.SampledFrom([]int{0, 1, 2, 4, 3}).Draw(t, "sdlIndexes0"), B2: true}
 	}
 	c.Ops = append(c.Ops, first)
 	for len(c.Ops) < n {
